@@ -360,6 +360,17 @@ fn string_from_attrs(param: &abi_ast::Param, emitter: &dyn Emitter) -> Result<Op
                     )));
                 }
             }
+            // (no format has instructions larger than 64 KiB; without a limit, an absurd size here makes the
+            //  compiler pad a string to gigabytes before the instruction is rejected for its size)
+            const MAX_STRING_ARG_SIZE: u32 = 0x10000;
+            for size_attr in user_bs.iter().chain(user_len.iter()) {
+                if size_attr.value > MAX_STRING_ARG_SIZE {
+                    return Err(emitter.as_sized().emit(error!(
+                        message("invalid size for '{}'", param.format_char),
+                        primary(size_attr, "must be at most {}", MAX_STRING_ARG_SIZE),
+                    )));
+                }
+            }
             match (user_len, user_bs, is_len_prefixed) {
                 (None, Some(bs), LenPrefixed(false)) => StringArgSize::ToBlobEnd {
                     block_size: bs.value as _,
